@@ -491,10 +491,8 @@ class Region(object):
         theta_phi : numpy.array
             Array of (theta,phi) coordinates.
         """
-        try:
-            theta_phi = sky.copy()
-        except AttributeError as _:
-            theta_phi = np.array(sky)
+        # always a float copy: an integer array would truncate the angles
+        theta_phi = np.array(sky, dtype=float)
         theta_phi[:, [1, 0]] = theta_phi[:, [0, 1]]
         theta_phi[:, 0] = np.pi/2 - theta_phi[:, 0]
         # # force 0<=theta<=2pi
